@@ -87,6 +87,7 @@ type pairState struct {
 	calls          int
 	callsHealed    int
 	quietRun       int
+	sinceChange    int // "nothing new"/"done" outcomes since the last position change of any pair of its source
 	idle           bool
 	curAtCallStart int64
 	healBound      int
